@@ -2,7 +2,11 @@
 // runtime (built with the rewrite overlay).
 package harness
 
-import "github.com/mimecast/dtail/verif/core"
+import (
+	"encoding/json"
+
+	"github.com/mimecast/dtail/verif/core"
+)
 
 type (
 	Check        = core.Check
@@ -16,3 +20,5 @@ var (
 	WriteScratch   = core.WriteScratch
 	CleanupScratch = core.CleanupScratch
 )
+
+func jsonUnmarshal(b []byte, v interface{}) error { return json.Unmarshal(b, v) }
